@@ -235,8 +235,10 @@ def bln_oracle_pass(chk, scripts, traces, props, pristine=False):
         recs = traces.get(sc['name'])
         if not recs:
             continue
+        ret = fsoracle.Retired()
         for rec, (cfg, changed) in zip(recs, configs_along(sc, recs)):
             fs = fsoracle.bln_state_findings(rec, cfg, sc['_machine'])
+            fs += ret.step(sc['events'][rec['seq']] if rec['seq'] >= 0 else {}, rec)
             if pristine and rec.get('tag') == 'quiescent':
                 fs += fsoracle.bln_pristine_findings(recs[0], rec, not changed)
             for f in fs:
